@@ -1,0 +1,62 @@
+//go:build verif
+
+// Licensed to LinDB under one or more contributor
+// license agreements. See the NOTICE file distributed with
+// this work for additional information regarding copyright
+// ownership. LinDB licenses this file to you under
+// the Apache License, Version 2.0 (the "License"); you may
+// not use this file except in compliance with the License.
+// You may obtain a copy of the License at
+//
+//     http://www.apache.org/licenses/LICENSE-2.0
+//
+// Unless required by applicable law or agreed to in writing,
+// software distributed under the License is distributed on an
+// "AS IS" BASIS, WITHOUT WARRANTIES OR CONDITIONS OF ANY
+// KIND, either express or implied.  See the License for the
+// specific language governing permissions and limitations
+// under the License.
+
+package replica
+
+import (
+	"sort"
+
+	"github.com/lindb/lindb/models"
+)
+
+// This file only exists with the "verif" build tag. It lets the external
+// verification harness drive the replication loop of a partition step by step
+// instead of the free-running goroutine; it changes no behaviour.
+
+// VerifReplicators returns the current replicators of a partition ordered by node id.
+func VerifReplicators(p Partition) (nodes []models.NodeID, replicators []Replicator) {
+	pp := p.(*partition)
+	pp.mutex.Lock()
+	rs := pp.replicators
+	pp.mutex.Unlock()
+	for nodeID := range rs {
+		nodes = append(nodes, nodeID)
+	}
+	sort.Slice(nodes, func(i, j int) bool { return nodes[i] < nodes[j] })
+	for _, nodeID := range nodes {
+		replicators = append(replicators, rs[nodeID])
+	}
+	return nodes, replicators
+}
+
+// VerifReplicaPrepare runs the first half of partition.replica(handshake) for one replicator.
+func VerifReplicaPrepare(r Replicator) bool {
+	return r.IsReady() && r.Connect()
+}
+
+// VerifReplicaStep runs one pass of partition.replica for one replicator.
+func VerifReplicaStep(p Partition, nodeID models.NodeID, r Replicator) {
+	p.replica(nodeID, r)
+}
+
+// VerifReplicatorStateType returns the state type of a replicator as int.
+func VerifReplicatorStateType(r Replicator) (int, string) {
+	st := r.State()
+	return int(st.state), st.errMsg
+}
